@@ -1,7 +1,9 @@
 """C02 -- enumeration yields each solution exactly once (structural clauses)."""
 from ..rules import branching, search
 
-EXPLANATION = "tmp"
+EXPLANATION = (
+    'Static analysis of the enumeration machinery: typestate over the generators solve / solve_and_queue (one search per iteration; a solution is delivered exactly once and followed by exactly one backtrack; the loop ends iff no solution or no alternative), solve_one (vector only under PROBLEM_BOUND, None only after a failed backtrack on an inconsistent state, heuristic answers handed over unmodified), partition algebra and event masks of all 5 registered value heuristics from the symbolic pre-state [lo,hi], and the push/pop/init oracle of the choice-point stack. Decides these shapes for all problems; not the equality of multisets across strategies.'
+)
 
 
 def check(ctx, prog):
